@@ -76,7 +76,7 @@ class _CarrierKit:
         under = None
         for name, u in self.S._under.items():
             arr = getattr(self.S, name)
-            if len(arr) == len(vals) and all(a is b for a, b in zip(arr, vals)):
+            if vals is arr:
                 under = u
         if under is None:
             return self.K.farray(vals)
